@@ -37,6 +37,24 @@ Fixpoint beads_eqb (a b : list (Z * fvec3)) : bool :=
   | _, _ => false
   end.
 
+(** |a-b| <= 1e-12 * (1 + |a| + |b|) *)
+Definition ftight (a b : float) : bool :=
+  PrimFloat.leb (fabs (a - b)) (0x1.19799812dea11p-40 * (1 + fabs a + fabs b))%float.
+Definition v3tight (a b : fvec3) : bool :=
+  let '(a1, a2, a3) := a in let '(b1, b2, b3) := b in ftight a1 b1 && ftight a2 b2 && ftight a3 b3.
+Fixpoint beads_tight (a b : list (Z * fvec3)) : bool :=
+  match a, b with
+  | [], [] => true
+  | (k, p) :: a', (l, q) :: b' => Z.eqb k l && v3tight p q && beads_tight a' b'
+  | _, _ => false
+  end.
+(** /len(weights): numpy's element-wise operations are reproduced bit for bit.
+    /sum(weights.values()): CPython >= 3.12 sums floats with Neumaier compensation (and ints exactly), which the
+    plain left fold of the model does not reproduce to the last bit: the denominators may differ by an ulp, so
+    the comparison is relative 1e-12 for that variant (documented weakening, only for the repaired shape). *)
+Definition beads_agree (a b : list (Z * fvec3)) : bool :=
+  match fm_avg_mode with DivByLen => beads_eqb a b | DivBySum => beads_tight a b end.
+
 (** ---------- cases.  Exception codes: 0 none, 1 the exception the model can predict
     (KeyError for CEmbed/CFwd, NameError for CRound), 2 any other exception. *)
 Definition atomobs := (pystr * Z * Z)%type.      (* element, formal charge, total H count *)
@@ -82,7 +100,7 @@ Definition corr_ok (c : case) : bool :=
       end
   | CFwd beads pos t exc out out_t _ _ =>
       match fwd_model beads pos, fwd_model beads (translate t pos) with
-      | Ok m, Ok mt => Nat.eqb exc 0 && beads_eqb m out && beads_eqb mt out_t
+      | Ok m, Ok mt => Nat.eqb exc 0 && beads_agree m out && beads_agree mt out_t
       | Err EKey, _ | _, Err EKey => Nat.eqb exc 1
       | _, _ => false
       end
